@@ -102,6 +102,11 @@ func Script(name string, nmax int) []Op {
 		for i := 0; i < nmax; i++ {
 			ops = append(ops, Op{K: "mset", Key: nmax - 1 - i, V: "mid"})
 		}
+	case "map-coll-grow": // every third pair of neighbouring keys collides on the first level (external groups once big), ascending digests
+		ops = append(ops, Op{K: "newmap"})
+		for i := 0; i < nmax; i++ {
+			ops = append(ops, Op{K: "mset", Key: 30000 + i, V: "limM"})
+		}
 	case "map-drain-front":
 		ops = append(ops, Op{K: "newmap"})
 		h := nmax / 2
@@ -216,6 +221,20 @@ func trajDigests(d *DigestTable, upto int) {
 		n := uint64(10000 + j)
 		d.Table[n] = [4]uint64{uint64(j) * 1000, n*7 + 1, n*11 + 2, n*13 + 3}
 	}
+	// map-coll-grow: key 30000+i sits at first-level digest (i - i%6/1 …): keys 6j and 6j+1 share it, second level differs
+	for i := 0; i <= upto+1; i++ {
+		n := uint64(30000 + i)
+		l0 := uint64(i)
+		if i%6 == 1 {
+			l0 = uint64(i - 1)
+		}
+		d.Table[n] = [4]uint64{l0*1000 + 7, uint64(i) + 1, n*11 + 2, n*13 + 3}
+		// 40000+i: a key placed just below key 30000+i (fills the leaf that holds it)
+		d.Table[uint64(40000+i)] = [4]uint64{l0*1000 + 3, uint64(i) + 1, n*11 + 5, n*13 + 5}
+	}
+	// the two ends of the digest range: below every other key / above every other key
+	d.Table[20000] = [4]uint64{0, 0, 0, 0}
+	d.Table[20001] = [4]uint64{^uint64(0), ^uint64(0), ^uint64(0), ^uint64(0)}
 }
 
 func (t *trajSpace) ensureSeed() error {
@@ -532,6 +551,31 @@ func (t *trajSpace) allOps(w *World) []Op {
 				ops = append(ops, Op{K: "mset", C: 0, Key: nk, V: cl})
 			}
 			ops = append(ops, Op{K: "mget", C: 0, Key: nk})
+		}
+	}
+	// keys at the two ends of the digest range (digest 0 and 2^64-1 on every level)
+	for _, k := range []int{20000, 20001} {
+		ops = append(ops, Op{K: "mset", C: 0, Key: k, V: t.spec.Classes[0]}, Op{K: "mget", C: 0, Key: k}, Op{K: "mhas", C: 0, Key: k}, Op{K: "mremove", C: 0, Key: k})
+	}
+	if t.spec.Extra["allkeys"] == 1 {
+		ops = ops[:0] // only the operations below (the generic boundary alphabet is explored on the other scripts)
+		// colliding-growth script: every member of every collision pair is removed / shrunk, and the leaves that
+		// hold a pair can be filled up first with a new limit-sized key placed right below the pair or its neighbour
+		has := map[int]bool{}
+		for _, k := range present {
+			has[k] = true
+		}
+		for _, k := range present {
+			if k < 30000 || k >= 40000 {
+				continue
+			}
+			i := k - 30000
+			if i%6 <= 1 {
+				ops = append(ops, Op{K: "mremove", C: 0, Key: k}, Op{K: "mset", C: 0, Key: k, V: "t"})
+			}
+			if (i%6 == 0 || i%6 == 2) && !has[40000+i] {
+				ops = append(ops, Op{K: "mset", C: 0, Key: 40000 + i, V: "limM"})
+			}
 		}
 	}
 	if n > 0 && t.spec.Has("pop") {
